@@ -20,6 +20,8 @@ class C02Sketch(Scenario):
         if self.n_gen >= self.cfg["steps"]:
             return None
         self.n_gen += 1
+        if rng.chance(1, 10):
+            return {"op": "peek", "k": rng.below(self.cfg["universe"]), "depth": rng.choice((1, 1, 2, 3))}
         if self.cfg.get("big") and rng.chance(1, 4):
             # large amounts, still inside the statement's domain (totals below 2^31-1)
             return {"op": "add", "k": rng.below(self.cfg["universe"]),
@@ -55,6 +57,13 @@ class C02Sketch(Scenario):
         op = step["op"]
         ctx.count("op." + op)
         sig = {"class": sub.name, "op": op}
+        if op == "peek":
+            # a read-only call: the first `depth` hashes of a key, possibly fewer than the sketch uses
+            hs = self.o.hashes(sub.key(step["k"]), step["depth"])
+            if len(hs) != step["depth"]:
+                raise Violation("hashes_wrong_length", f"hashes(key, {step['depth']}) returned {len(hs)} values", sig)
+            step = {"op": "add", "k": step["k"], "n": 1, "alt": step.get("alt", False)}  # ... followed by an add of it
+            op = "add"
         if op == "add" and sub.total + step["n"] >= 2**31 - 1:
             return "skip"
         r = sub.apply_op(step)
